@@ -1913,7 +1913,12 @@ pub fn gen_reads(rng: &mut Rng, u: &Universe, height: Option<u64>, n: usize) -> 
                 // a later call that makes the EVM return a hard error (not a revert): the batch
                 // is abandoned half-way, after earlier calls have written to the journal
                 if rng.chance(1, 3) { calls.push(hard_error_call(rng, &from, &tool)); }
-                let ids = if rng.chance(1, 2) { Some(calls.iter().map(|_| Hx::n32(rng.below(1000))).collect()) } else { None };
+                // op_return tx ids: one per call, none, or FEWER than calls (the missing ones read as zero)
+                let ids: Option<Vec<Hx>> = match rng.below(4) {
+                    0 | 1 => Some(calls.iter().map(|_| Hx::n32(rng.below(1000))).collect()),
+                    2 => Some(calls.iter().skip(1).map(|_| Hx::n32(rng.below(1000))).collect()),
+                    _ => None,
+                };
                 Op::EthCallMany { calls, block, op_return_tx_ids: ids }
             }
             7 => Op::EstimateGas { from, to: tool.clone(), data: Hx(if rng.chance(1, 2) { cd::sstore(U256::from(1), U256::from(7)) } else { cd::context() }), block },
